@@ -33,12 +33,13 @@ class Project:
         return proj.configure(self.src, self.bld, self.backend, args=self.conf_args,
                               env=self.env)
 
-    def build(self, targets=(), extra=()):
+    def build(self, targets=(), extra=(), extra_env=None):
         """-> (rc, output, records)"""
         proj.clear_log(self.log)
         proj.settle()
         keep = ['-k'] if self.backend == 'make' else ['-k', '0']
-        rc, out = proj.build(self.bld, self.backend, targets, env=self.env,
+        env = self.env if not extra_env else dict(self.env, **extra_env)
+        rc, out = proj.build(self.bld, self.backend, targets, env=env,
                              extra=list(extra) + keep)
         recs = proj.read_log(self.log)
         return rc, out, recs
